@@ -154,6 +154,9 @@ func c03CLI(e *c03Env, rnd *vh.Rand) error {
 					if plant == "missing" {
 						where = "store"
 					}
+					if !unc && e.sshOK && rnd.Chance(1, 3) {
+						where = "ssh" // the store is reached through RemoteSSH and a `desync pull` child
+					}
 					c := &c03CLICase{Cmd: cmd, Unc: unc, Plant: plant, Where: where, Digest: "sha512-256"}
 					if rnd.Chance(1, 3) {
 						c.Digest = "sha256"
@@ -287,7 +290,7 @@ func c03CLIOne(e *c03Env, rnd *vh.Rand, bin string, c *c03CLICase, n int) error 
 		d2 = append(append([]byte{}, d...), 1)
 	}
 	dir := store
-	if c.Where != "store" {
+	if c.Where == "cache" || c.Where == "cache-norepair" {
 		dir = cache
 	}
 	if obj, ok := c03Plant(rnd, c.Plant, d, d2, c.Unc); ok {
@@ -304,6 +307,8 @@ func c03CLIOne(e *c03Env, rnd *vh.Rand, bin string, c *c03CLICase, n int) error 
 	}
 	storeArgs := []string{"-s", store}
 	switch c.Where {
+	case "ssh":
+		storeArgs = []string{"-s", "ssh://localhost" + store}
 	case "cache":
 		storeArgs = append(storeArgs, "-c", cache)
 	case "cache-norepair":
